@@ -203,8 +203,10 @@ func (h *Hist) CheckC11(before, after *GovState, op *Op, res TxResult) {
 	if after.View != before.View {
 		r.Count("c11/epoch_change")
 	}
-	// diagnostic (not part of the property statement): every address's TotalStake equals
-	// what the position tables attribute to it
+	// every address's recorded TotalStake covers what the position tables attribute to it (all six
+	// authorize buckets + init pos of owned peers): claims beyond the recorded stake are ONT the address
+	// can unfreeze and withdraw without having deposited it.  (The opposite direction - stake without a
+	// position - is only counted: it strands funds, it does not let anybody withdraw too much.)
 	addrs := map[common.Address]bool{}
 	for a := range after.TotalStake {
 		addrs[a] = true
@@ -216,14 +218,16 @@ func (h *Hist) CheckC11(before, after *GovState, op *Op, res TxResult) {
 		addrs[p.Address] = true
 	}
 	for a := range addrs {
-		if after.TotalStake[a] != after.BucketSum(a) {
-			r.Count("diag/total_stake_differs_from_position_tables")
-			if r.Counter("diag/total_stake_differs_from_position_tables") == 1 {
-				r.Extra("diag_first_bucket_mismatch", h.witness(map[string]interface{}{"address": h.W.Name(a), "total_stake": after.TotalStake[a], "positions": after.BucketSum(a)}))
-			}
-			break
+		ts, bs := after.TotalStake[a], after.BucketSum(a)
+		if bs > ts && !(before.BucketSum(a) > before.TotalStake[a]) {
+			h.violate("C11", "positions-exceed-recorded-stake:"+op.Kind, fmt.Sprintf("%s: positions (authorize buckets + init pos) sum to %d but its recorded total stake is %d after %s", h.W.Name(a), bs, ts, op.String()),
+				map[string]interface{}{"address": h.W.Name(a), "total_stake": ts, "positions": bs})
+		}
+		if ts > bs {
+			r.Count("diag/total_stake_exceeds_position_tables")
 		}
 	}
+	r.Count("c11/positions_vs_stake_checked")
 }
 
 func diffDumps(a, b map[string]string, max int) []string {
